@@ -46,7 +46,7 @@ var Check = &vrt.Check{
 		if tier == "thorough" {
 			l = 4
 		}
-		return map[string]any{"exhaustive_subspaces": []string{fmt.Sprintf("all precondition-respecting histories of length <= %d over the 21-operation alphabet, 4 casts, 2 modes", l)}}
+		return map[string]any{"exhaustive_subspaces": []string{fmt.Sprintf("all precondition-respecting histories of length <= %d over the 22-operation alphabet, 4 casts, 2 modes", l)}}
 	},
 }
 
@@ -100,6 +100,9 @@ const (
 	opDefer    = "defer"
 	opInbound  = "inbound"
 	opInbound2 = "inbound2" // ProcessInbound(m[i], m[(i+1)%3]) in one call
+	// ProcessInbound(m[i], X) in one call, where X cannot be stored (its Date header is in no layout the
+	// serialiser accepts): m[i] is stored, X is not, and the call must say so (a non-nil error)
+	opInboundBad = "inboundbad"
 	opUnread   = "unread"
 	opRead     = "read"
 	opRestart  = "restart"
@@ -140,7 +143,7 @@ func histString(h []op) string {
 	return strings.Join(parts, " ")
 }
 
-// alphabet returns the 21 operations of the exhaustive part for a cast.
+// alphabet returns the 22 operations of the exhaustive part for a cast.
 func alphabet(cast [3]variant) []op {
 	var a []op
 	for i := 0; i < 3; i++ {
@@ -152,7 +155,7 @@ func alphabet(cast [3]variant) []op {
 			a = append(a, op{K: k, M: i, Rej: k == opSent && i == 1})
 		}
 	}
-	a = append(a, op{K: opInbound2, M: 0})
+	a = append(a, op{K: opInbound2, M: 0}, op{K: opInboundBad, M: 1})
 	for _, k := range []string{opUnread, opRead} {
 		for i := 0; i < 3; i++ {
 			a = append(a, op{K: k, M: i})
@@ -216,7 +219,7 @@ func (m *model) apply(o op, msgs [][]byte) {
 		delete(m.out, mid)
 	case opDefer:
 		m.deferred[mid] = true
-	case opInbound:
+	case opInbound, opInboundBad:
 		m.in[mid] = &stored{bytes: msgs[0], unread: true}
 	case opInbound2:
 		m.in[mid] = &stored{bytes: msgs[0], unread: true}
@@ -337,6 +340,15 @@ func (r *runner) step(o op) {
 		}
 		if err := r.h.ProcessInbound(msgs...); err != nil {
 			r.violate("return:ProcessInbound", "ProcessInbound(%v) = %v, model: nil", idx, err)
+		}
+	case opInboundBad:
+		r.loaded = nil
+		good := inSpec(o.M, o).Build()
+		msgBytes = [][]byte{mboxkit.MustBytes(good)}
+		bad := mboxkit.MsgSpec{MID: "UNSTORABLE01", From: "N0SRC", To: []string{"N0DST"}, BodyLen: 20}.Build()
+		bad.Header.Set("Date", "no date at all")
+		if err := r.h.ProcessInbound(good, bad); err == nil {
+			r.violate("return:ProcessInbound:nil-for-unstored", "ProcessInbound(%s, <message that cannot be serialised>) = nil although the second message was not stored", mid)
 		}
 	case opUnread, opRead:
 		// the package function needs a message that carries X-FilePath, i.e. one listed from the folder
